@@ -430,6 +430,26 @@ class AbsDomain:
         self.params = {p["id"]: p for p in self.prog.params(f)}
         self.local_arrays = {}      # var id -> size
         self.thresholds = sorted(set(self._consts(f)))
+        # single-assignment local pointers to an element of a const table: `const T *e = &TABLE[i];` reads through them are table reads
+        self.table_ptrs = {}
+        written = set()
+        for m in walk(self.prog.body(f)):
+            if m.get("kind") in ("BinaryOperator", "CompoundAssignOperator") and m.get("opcode", "").endswith("=") and \
+                    m.get("opcode") not in ("==", "!=", "<=", ">="):
+                l = strip(kids(m)[0], casts=True)
+                if l.get("kind") == "DeclRefExpr":
+                    written.add(ref_name(l))
+            if m.get("kind") == "UnaryOperator" and m.get("opcode") in ("++", "--"):
+                l = strip(kids(m)[0], casts=True)
+                if l.get("kind") == "DeclRefExpr":
+                    written.add(ref_name(l))
+        for m in walk(self.prog.body(f)):
+            if m.get("kind") == "VarDecl" and "*" in qtype(m) and kids(m):
+                i = strip(kids(m)[-1], casts=True)
+                if i.get("kind") == "UnaryOperator" and i.get("opcode") == "&":
+                    root = EFF.lvalue_root(kids(i)[0])[0]
+                    if root in self.SENTINEL_TABLES and m["name"] not in written:
+                        self.table_ptrs[m["name"]] = root
 
     def _consts(self, f):
         out = [0, 1]
@@ -845,6 +865,7 @@ class AbsDomain:
 
     def _table_root(self, e):
         r = EFF.lvalue_root(e)[0]
+        r = self.table_ptrs.get(r, r)
         return r if r in self.SENTINEL_TABLES else None
 
     def _bitfield_width(self, owner, fld):
